@@ -74,6 +74,12 @@ Module GrpT.
   Lemma h_spec3 h : hA h = 0 -> hR h = 0. Proof. destruct h; cbn; lia. Qed.
   Lemma rank_bounds c x : cR c x <= 13 + sessP c + 2 * retry c \/ True. Proof. auto. Qed.
 
+  Lemma lt3_intro a b c a' b' c' :
+    a < a' \/ (a = a' /\ b < b') \/ (a = a' /\ b = b' /\ c < c') -> lt3 (a, b, c) (a', b', c').
+  Proof.
+    unfold lt3, lt2; cbn. intros [H|[[H1 H2]|[H1 [H2 H3]]]]; subst; auto.
+  Qed.
+
   (* measure decrease of one action in the phase *)
   Ltac mgo :=
     match goal with I : Inv ?s, P : closed_ch ?s = true, H : step ?c ?s _ = Some _ |- _ =>
@@ -82,7 +88,7 @@ Module GrpT.
       match goal with I : Inv ?sx, P : closed_ch ?sx = true |- _ =>
         destr_inv I; pose_specs sx; pose proof (h_spec3 (hb sx));
         unf; rew_eqs sx; cbn in *; try discriminate;
-        unfold mu, lt3, lt2, L1, L2, L3, sessP;
+        unfold mu; apply lt3_intro; unfold L1, L2, L3, sessP;
         unfold set_errs, with_panic, set_kc, set_cc, set_lk, set_sess, set_ctx, set_hb, set_lc, set_claims, set_budget, set_fw;
         cbn -[Nat.mul Nat.sub Nat.add]; rew_goal sx; cbn -[Nat.mul Nat.sub Nat.add];
         repeat match goal with |- context [b2n ?b] => is_var b; destruct b end;
